@@ -386,3 +386,220 @@ def long_queries(target, alloc=10000):
         out.append((target + '?q=' + ('abcdefghij' * (n // 10 + 1))[:n], total < alloc))
     return out
 
+
+# ================================================================================================ second audit pass (AUDIT2.md)
+# Feature-style classes: what a maintainer of a static server adds with good intentions (precompressed side files, compression on the fly,
+# content negotiation by Accept / Accept-Language / client hints, virtual hosts and proxy headers, access-control files, type sniffing,
+# default documents, directory scans, conditional requests, keep-alive, a log line that shortens its fields) hinges on a RELATION between
+# two inputs: a request header and a NEIGHBOUR of the selected file, a header and the target, the request buffer and the file size, this
+# request and the bytes after it.  Every group below puts the neighbour into the tree and the header into the request; the oracle is the
+# documented lookup on the path alone (props/c02.py), so the neighbour must never be what is served.
+import gzip as _gzip
+
+def gz(b):
+    return _gzip.compress(b, 6, mtime=0)
+
+AE_VALUES = ['gzip', 'gzip, deflate, br', 'br', 'identity', 'gzip;q=0', '*', 'GZIP', 'x-gzip', 'deflate', 'zstd', '', 'gzip;q=0.5, identity;q=1', 'gzip, deflate, br, zstd',
+             'br;q=1.0, gzip;q=0.8, *;q=0.1', 'identity;q=0', 'gzip ; q=1', 'compress, gzip', 'gzip;q=0.001']
+
+MAGIC = [('png', b'\x89PNG\r\n\x1a\n\0\0\0\rIHDR'), ('gif', b'GIF89a\x01\0\x01\0'), ('jpg', b'\xff\xd8\xff\xe0\0\x10JFIF\0'), ('pdf', b'%PDF-1.7\n%\xe2\xe3\xcf\xd3\n'), ('zip', b'PK\x03\x04\x14\0\0\0'),
+         ('gzip', b'\x1f\x8b\x08\0\0\0\0\0\0\x03'), ('html', b'<!DOCTYPE html>\n<html><body>x</body></html>'), ('html2', b'  \n<HTML><script>alert(1)</script>'), ('xml', b'<?xml version="1.0"?><a/>'),
+         ('svg', b'<svg xmlns="http://www.w3.org/2000/svg"><script>1</script></svg>'), ('json', b'{"a": [1, 2, {"b": null}]}'), ('js', b'#!/usr/bin/env node\nconsole.log(1)'), ('css', b'@charset "utf-8";\nbody{}'),
+         ('elf', b'\x7fELF\x02\x01\x01\0'), ('wasm', b'\0asm\x01\0\0\0'), ('webp', b'RIFF\x24\0\0\0WEBPVP8 '), ('mp4', b'\0\0\0\x18ftypmp42'), ('bom16', b'\xff\xfe<\0h\0t\0m\0l\0>\0'), ('text', b'just plain text\n'),
+         ('empty', b'')]
+MAGIC_EXTS = ['txt', 'html', 'png', 'bin', 'js', 'json', 'css', 'svg', 'jpg', 'pdf', 'xml', 'gz', 'unknownext']
+
+def feature_tree(rng, thorough=False):
+    """-> (tree, plan): plan = [(target, headers, note)]; note None = judged by the lookup oracle, 'model-only' = compared with the model only"""
+    t = new_tree(b'lvl0/root')
+    R = t.cwd + b'/'
+    P = []
+    def F(rel, content=None):
+        rel = _b(rel)
+        t.file(R + rel, content if content is not None else b'{' + rel + b'} ' + rng.bytes(rng.range(1, 10)).hex().encode())
+    def L(rel, target): t.link(R + _b(rel), _b(target))
+    def Q(target, hs=(), note=None): P.append((target, list(hs), note))
+    H0 = [('Host', 'localhost')]
+    # ---------------------------------------------------------------- S: side files next to the selected file (precompressed variants)
+    js = b'console.log("the current app.js");\n' * 4
+    F('s/app.js', js); F('s/app.js.gz', gz(b'console.log("an OUTDATED app.js, compressed long ago");\n' * 4)); F('s/app.js.br', b'\x0b\x02\x80not really brotli\x03'); F('s/app.js.zst', b'\x28\xb5\x2f\xfd stale')
+    css = b'body { color: black } /* style */\n' * 3
+    F('s/style.css', css); F('s/style.css.gz', gz(css))
+    F('s/page.html', b'<p>page, current</p>'); F('s/page.html.gz', gz(b'<p>page, OUTDATED</p>')); F('s/page.gz', gz(b'<p>page.gz: not the page</p>'))
+    F('s/dir/index.html', b'<p>index of s/dir, current</p>'); F('s/dir/index.html.gz', gz(b'<p>index of s/dir, OUTDATED</p>')); F('s/dir.gz', gz(b'not the index')); F('s/dir/index.gz', gz(b'nor this'))
+    F('s/only.js.gz', gz(b'only the compressed variant exists'))
+    F('s/data.json', b'{"current": true}'); F('s/data.json.gz/index.html', b'<p>a DIRECTORY called data.json.gz</p>')
+    L('s/lnk.js', 'app.js'); L('s/lnk2.js.gz', 'app.js.gz'); F('s/lnk2.js', b'lnk2, the plain one')
+    F('s/empty.css', b''); F('s/empty.css.gz', gz(b'body { color: red } /* for an EMPTY file */'))
+    F('s/big.svg', b'<svg>' + b'<g></g>' * 900 + b'</svg>'); F('s/big.txt', b'compressible line of text\n' * 2800); F('s/small.txt', b'tiny'); F('s/noise.png', rng.bytes(3000))
+    F('s/tiny.txt', b'tiny'); F('s/tiny.txt.gz', gz(b'tiny'))                                  # (the side file is the longer one)
+    F('s/gz.gz', gz(b'a file that is a .gz itself')); F('s/gz.gz.gz', gz(b'and its own side file'))
+    S = ['/s/app.js', '/s/app.js.gz', '/s/style.css', '/s/page', '/s/page.html', '/s/dir', '/s/dir/', '/s/only.js', '/s/only.js.gz', '/s/data.json', '/s/lnk.js', '/s/lnk2.js', '/s/empty.css',
+         '/s/big.svg', '/s/big.txt', '/s/small.txt', '/s/tiny.txt', '/s/noise.png', '/s/app', '/s/app.js?x=.gz', '/s/gz.gz', '/s/dir/index.html']
+    for s in S:
+        aes = AE_VALUES if thorough else ['gzip', 'gzip, deflate, br'] + [rng.choice(AE_VALUES) for _ in range(2)]
+        Q(s, H0)
+        for a in aes:
+            Q(s, H0 + [('Accept-Encoding', a)])
+        Q(s, H0 + [('Accept-Encoding', 'gzip')])            # again: what the first request may have left behind (a cache, a refreshed side file)
+        if thorough or rng.chance(1, 3): Q(s, [('Accept-Encoding', 'gzip'), ('TE', 'gzip'), ('Host', 'localhost')])
+    for a in AE_VALUES:
+        Q(rng.choice(S), H0 + [('accept-encoding', a)])
+    # ---------------------------------------------------------------- N: neighbours a negotiating server would prefer
+    for n in ['img.png', 'img.webp', 'img.avif', 'img.png.webp', 'img@2x.png', 'img.low.png', 'img-dark.png', 'page.html', 'page.de.html', 'page.html.de', 'page.fr.html', 'page.en.html', 'index.html',
+              'index.de.html', 'index.html.de', 'app.js', 'app.min.js', 'app.mjs', 'app.js.map', 'style.css', 'style.dark.css', 'style.min.css', 'doc', 'doc.html', 'doc.txt', 'doc.json', 'multi.txt', 'multi.json',
+              'multi.de.txt']:
+        F('n/' + n)
+    img = [[('Accept', 'image/avif,image/webp,image/apng,image/*,*/*;q=0.8')], [('Accept', 'image/webp')], [('DPR', '2')], [('DPR', '2.0'), ('Width', '800'), ('Viewport-Width', '400')], [('Sec-CH-DPR', '2')],
+           [('Save-Data', 'on')], [('Sec-CH-Prefers-Color-Scheme', 'dark')], [('Accept', 'image/avif'), ('Save-Data', 'on'), ('DPR', '3')], [('ECT', 'slow-2g'), ('Downlink', '0.05'), ('RTT', '3000')]]
+    lang = [[('Accept-Language', 'de')], [('Accept-Language', 'de-DE,de;q=0.9,en;q=0.8')], [('Accept-Language', 'fr')], [('Accept-Language', '*')], [('Accept-Language', 'DE')], [('Cookie', 'lang=de')],
+            [('Accept-Language', 'en;q=0, de')], [('Accept-Language', 'xx')], [('Accept-Language', '')]]
+    asset = [[('Sec-CH-Prefers-Color-Scheme', 'dark')], [('Save-Data', 'on')], [('Accept', 'text/javascript')], [('Sec-Fetch-Dest', 'script')], [('Sec-Fetch-Dest', 'style')], [('User-Agent', 'Mozilla/5.0 (compatible; MSIE 9.0)')]]
+    neg = [[('Accept', 'application/json')], [('Accept', 'text/plain')], [('Accept', 'text/html')], [('Accept', '*/*;q=0.1, application/json')], [('Accept', 'text/plain'), ('Accept-Language', 'de')]]
+    for tg in ['/n/img.png', '/n/img.png?w=2x', '/n/img']:
+        for hs in img: Q(tg, H0 + hs)
+    for tg in ['/n/page.html', '/n/page', '/n/', '/n', '/n/index.html', '/n/index', '/n/page.de', '/n/page.html.de']:
+        for hs in (lang if thorough else [lang[rng.below(2)], rng.choice(lang[2:])]): Q(tg, H0 + hs)
+    for tg in ['/n/app.js', '/n/style.css', '/n/app', '/n/app.min.js']:
+        for hs in (asset if thorough else [asset[rng.below(2)], rng.choice(asset[2:])]): Q(tg, H0 + hs)
+    for tg in ['/n/doc', '/n/multi', '/n/doc.json', '/n/doc.html', '/n/multi.txt']:
+        for hs in neg: Q(tg, H0 + hs)
+    # ---------------------------------------------------------------- V: directories named like the host, the proxy prefix, the scheme
+    F('v.txt', b'v.txt of the served directory itself')
+    hosts = ['localhost', 'localhost:7878', 'example.org', 'www.example.org', 'evil.example', '127.0.0.1', '127.0.0.1:7878', 'EXAMPLE.ORG', 'example.org.', '[::1]', 'default']
+    for h in hosts:
+        if h.startswith('['): continue
+        F(h + '/v.txt', b'v.txt BELOW the directory called ' + h.encode()); F(h + '/onlyhere.txt', b'exists only below ' + h.encode()); F(h + '/index.html', b'<p>index below ' + h.encode() + b'</p>')
+    for d in ['vhosts/example.org', 'sites/example.org', 'prefix', 'app/prefix', 'https', 'http']:
+        F(d + '/v.txt', b'v.txt below ' + d.encode()); F(d + '/onlyhere.txt', b'only below ' + d.encode())
+    for h in hosts + ['example.org:80', 'example.org:443', 'xn--bcher-kva.example', 'bücher.example']:
+        for tg in (['/v.txt', '/onlyhere.txt', '/v'] if thorough else ['/v.txt', rng.choice(['/onlyhere.txt', '/v', '/v.txt?h=' + h])]):
+            Q(tg, [('Host', h)])
+    for hs in [[('X-Forwarded-Host', 'example.org')], [('Forwarded', 'for=192.0.2.60;proto=https;host=example.org')], [('Forwarded', 'host="example.org:443"')], [('X-Forwarded-Prefix', '/prefix')],
+               [('X-Forwarded-Prefix', '/app/prefix/')], [('X-Forwarded-Proto', 'https')], [('X-Forwarded-Proto', 'http'), ('X-Forwarded-Port', '443')], [('X-Forwarded-For', '127.0.0.1'), ('X-Real-IP', '127.0.0.1')],
+               [('X-Original-URL', '/example.org/v.txt')], [('X-Rewrite-URL', '/prefix/v.txt')], [('X-Accel-Redirect', '/prefix/v.txt')], [('X-Sendfile', 'prefix/v.txt')], [('X-Forwarded-Uri', '/prefix/onlyhere.txt')],
+               [('Destination', '/prefix/v.txt')], [('X-Script-Name', '/prefix')], [('Host', 'example.org'), ('Host', 'localhost')], [('Host', 'localhost'), ('X-Forwarded-Host', 'evil.example, example.org')]]:
+        for tg in ['/v.txt', '/onlyhere.txt']:
+            Q(tg, (hs if hs[0][0] == 'Host' else H0 + hs))
+    for tg in ['http://example.org/v.txt', 'http://localhost/v.txt', '//example.org/v.txt', 'http://example.org/onlyhere.txt']: Q(tg, H0)          # (not origin form: compared with the model)
+    # ---------------------------------------------------------------- A: files a server might take for its own configuration
+    F('p/.htaccess', b'Require all denied\nRedirect 301 /p/secret.txt /v.txt\n'); F('p/.htpasswd', b'user:$apr1$x$y\n'); F('p/secret.txt', b'p/secret.txt: served like any other file'); F('p/index.html', b'<p>index of p</p>')
+    F('_redirects', b'/p/secret.txt /v.txt 301\n/gone.txt /v.txt 200\n/* /index.html 200\n'); F('_headers', b'/*\n  X-Frame-Options: DENY\n'); F('.htaccess', b'ErrorDocument 404 /v.txt\nDirectoryIndex v.txt\n')
+    F('robots.txt', b'User-agent: *\nDisallow: /p/\n'); F('.well-known/security.txt', b'Contact: mailto:x@example.org\n'); F('.well-known/acme-challenge/tok-en_1', b'tok-en_1.thumb'); F('.git/HEAD', b'ref: refs/heads/main\n')
+    F('.env', b'KEY=value\n'); F('p/.hidden/x.txt', b'x below a dot directory'); F('web.config', b'<configuration/>'); F('.rwsignore', b'p/\n*.txt\n'); F('p/.index.html', b'<p>dot index</p>'); F('.hidden.html', b'<p>hidden page</p>')
+    F('pd/.htaccess', b'Options -Indexes\nDirectoryIndex other.html\n'); F('pd/other.html', b'<p>other</p>')
+    A = ['/p/secret.txt', '/p/', '/p', '/p/.htaccess', '/p/.htpasswd', '/_redirects', '/_headers', '/.htaccess', '/robots.txt', '/.well-known/security.txt', '/.well-known/acme-challenge/tok-en_1', '/.git/HEAD', '/.env',
+         '/p/.hidden/x.txt', '/p/.hidden', '/web.config', '/.rwsignore', '/gone.txt', '/p/.index', '/.hidden', '/pd', '/pd/', '/pd/other', '/.well-known', '/.git/']
+    auth = [[], [('Authorization', 'Basic dXNlcjpwYXNz')], [('Authorization', 'Bearer abc.def.ghi')], [('Authorization', 'garbage')], [('Cookie', 'session=0123456789abcdef; auth=1')], [('Authorization', '')],
+            [('Proxy-Authorization', 'Basic dXNlcjpwYXNz')], [('User-Agent', 'Googlebot/2.1 (+http://www.google.com/bot.html)')], [('User-Agent', 'BadBot'), ('From', 'bot@example.org')]]
+    for tg in A:
+        for hs in (auth if thorough else [[], auth[1 + rng.below(3)], rng.choice(auth[4:])]): Q(tg, H0 + hs)
+    # ---------------------------------------------------------------- M: the content says one type, the extension another
+    for tag, c in MAGIC:
+        exts = MAGIC_EXTS if thorough else [rng.choice(MAGIC_EXTS) for _ in range(3)]
+        for e in dict.fromkeys(exts):
+            F('mg/%s-as.%s' % (tag, e), c); Q('/mg/%s-as.%s' % (tag, e), rng.choice([H0, H0 + [('Accept', '*/*')], []]))
+        F('mg/%s-noext' % tag, c); Q('/mg/%s-noext' % tag)
+        if thorough or rng.chance(1, 3): F('mg/%s-page.html' % tag, c); Q('/mg/%s-page' % tag)
+    # ---------------------------------------------------------------- D: default documents, scans of a directory
+    for n in ['index.htm', 'default.html', 'default.htm', 'index.php', 'index.xhtml', 'README.md', 'home.html', 'index.txt', 'index', 'index.html~', 'index.html.bak', '.index.html', 'index.shtml', 'main.html']:
+        F('alt/' + n)
+    for n in ['index.htm', 'index.html', 'default.html', 'Index.html', 'INDEX.HTML', 'index.html.gz', 'index.HTML', 'index.html ', 'aindex.html', 'index.htmlx']:
+        if n == 'index.html.gz': F('twinidx/' + n, gz(b'<p>not the index</p>'))
+        elif n == 'index.html': F('twinidx/' + n, b'<p>the one and only index.html of twinidx</p>')
+        else: F('twinidx/' + n)
+    F('twinidx.html', b'<p>page twinidx.html</p>')
+    many = 1500 if thorough else 220
+    for i in range(many): F('many/e%04d.txt' % i, b'entry %d' % i)
+    F('many/index.html', b'<p>index of a directory with many entries</p>'); F('many/zz-last.html', b'<p>last</p>'); F('many/0-first.html', b'<p>first</p>')
+    F('nu/index.html', b'<p>index next to names that are not UTF-8</p>'); F(b'nu/\xff\xfe.txt', b'name of two invalid bytes'); F(b'nu/caf\xe9.txt', b'a Latin-1 name'); F(b'nu/cut-\xe6\x97.html', b'a cut character'); F('nu/ok.txt', b'ok')
+    F(b'nu2/\xff.html', b'only a page with a bad name'); F(b'nu3/\xffdir/index.html', b'index in a directory with a bad name'); F('nu3/fine.txt', b'fine')
+    for tg in ['/alt', '/alt/', '/alt/index', '/alt/index.htm', '/alt/default', '/alt/README', '/alt/home', '/alt/main', '/twinidx', '/twinidx/', '/twinidx/index.html', '/twinidx/Index.html', '/twinidx/INDEX.HTML',
+               '/twinidx/index', '/twinidx/index.htm', '/twinidx.html', '/twinidx?x=1', '/many', '/many/', '/many/e0000.txt', '/many/e%04d.txt' % (many - 1), '/many/e%04d' % many, '/many/zz-last', '/many/0-first',
+               '/many/index', '/nu', '/nu/', '/nu/index.html', '/nu/ok.txt', '/nu/ok', '/nu2', '/nu2/', '/nu3/fine.txt', '/nu3', '/nu3/']:
+        Q(tg, rng.choice([H0, []]))
+    for tg in [b'/nu/\xff\xfe.txt', b'/nu/caf\xe9.txt', b'/nu2/\xff', b'/nu3/\xffdir/']:
+        Q(tg.decode('utf-8', 'surrogateescape'), H0)                                     # (a target that is not UTF-8: compared with the model)
+    # ---------------------------------------------------------------- C: conditional requests whose condition cannot hold / must be ignored
+    F('c/file.bin', pattern(700, 5)); F('c/dir/index.html', b'<p>index of c/dir</p>'); F('c/page.html', b'<p>c/page</p>'); L('c/lnk.bin', 'file.bin'); F('c/zero.txt', b'')
+    cond = [('If-Modified-Since', 'Sun, 06 Nov 1994 08:49:37 GMT'), ('If-Modified-Since', 'Sunday, 06-Nov-94 08:49:37 GMT'), ('If-Modified-Since', 'Sun Nov  6 08:49:37 1994'), ('If-Modified-Since', 'Thu, 01 Jan 1970 00:00:00 GMT'),
+            ('If-Modified-Since', 'yesterday'), ('If-Modified-Since', ''), ('If-Modified-Since', '0'), ('If-Modified-Since', 'Sun, 06 Nov 1994 08:49:37 GMT; length=700'), ('if-modified-since', 'Sat, 01 Jan 2000 00:00:00 GMT'),
+            ('If-None-Match', '"c02-no-such-tag-%s"' % G.rand_token(rng, 6)), ('If-None-Match', 'W/"c02-weak-no-such-tag"'), ('If-None-Match', '"a", "b", W/"c"'), ('If-Range', '"c02-no-such-tag"'),
+            ('If-Range', 'Sun, 06 Nov 1994 08:49:37 GMT')]
+    for tg in ['/c/file.bin', '/c/dir', '/c/dir/', '/c/page', '/c/lnk.bin', '/c/zero.txt', '/c/missing.bin', '/c/file.bin?v=1']:
+        for n, v in (cond if thorough else [cond[rng.below(4)], cond[4 + rng.below(5)], cond[9 + rng.below(3)], cond[12 + rng.below(2)]]):
+            Q(tg, H0 + [(n, v)])
+        Q(tg, H0 + [('If-Modified-Since', 'Sun, 06 Nov 1994 08:49:37 GMT'), ('If-None-Match', '"c02-no-such-tag"'), ('Cache-Control', 'max-age=0')])
+    # ---------------------------------------------------------------- K: as many links in a row as the kernel follows (40), for a file and for a directory
+    F('ch/end.txt', b'the end of a chain of links'); F('ch/real/index.html', b'<p>index at the end of a chain of directory links</p>'); F('ch/real/f.txt', b'f at the end')
+    for n in (39, 40):
+        for i in range(n):
+            L('ch/f%d-%d.txt' % (n, i), ('f%d-%d.txt' % (n, i + 1)) if i + 1 < n else 'end.txt')
+            L('ch/d%d-%d' % (n, i), ('d%d-%d' % (n, i + 1)) if i + 1 < n else 'real')
+        for tg in ['/ch/f%d-0.txt' % n, '/ch/d%d-0/' % n, '/ch/d%d-0/f.txt' % n, '/ch/d%d-1' % n, '/ch/f%d-%d.txt' % (n, n - 1)]: Q(tg, H0)
+    import os
+    if os.environ.get('C02_CLEAN_TREE_FINDINGS'):
+        # inputs of the findings of the second audit on the UNCHANGED tree (see AUDIT2.md); not part of the default run
+        # (1) model: Rws.Fs follows 41 and more links in a row where the kernel answers ELOOP
+        for i in range(41): L('ch/f41-%d.txt' % i, ('f41-%d.txt' % (i + 1)) if i < 40 else 'end.txt')
+        Q('/ch/f41-0.txt', H0)
+    # (2) code, open findings F43b / F43c (always run; props/c02.py classifies them): a link with an innocent name to a file whose own name file-ext
+    # refuses (416), or that is not UTF-8 (500)
+    F('lk/a b.txt', b'a name with a blank'); L('lk/pretty.txt', 'a b.txt'); L('lk/idx/index.html', '../a b.txt'); L('lk/pg.html', 'a b.txt'); F(b'lk/\xff.txt', b'a name that is not UTF-8'); L('lk/bad.txt', b'\xff.txt')
+    F('lk/a&b.txt', b'a name with an ampersand'); L('lk/amp.txt', 'a&b.txt'); F('lk/plain.txt', b'plain'); L('lk/ok.txt', 'plain.txt')
+    for tg in ['/lk/pretty.txt', '/lk/idx/', '/lk/pg', '/lk/bad.txt', '/lk/amp.txt', '/lk/ok.txt']: Q(tg, H0)
+    # conditions that may hold (a date in the future, any tag, a tag list with *): an implementation of conditional requests may answer 304 / 412
+    for n, v in [('If-Modified-Since', 'Fri, 01 Jan 2100 00:00:00 GMT'), ('If-None-Match', '*'), ('If-Match', '*'), ('If-Match', '"x"'), ('If-Unmodified-Since', 'Sun, 06 Nov 1994 08:49:37 GMT'),
+                 ('If-Unmodified-Since', 'Fri, 01 Jan 2100 00:00:00 GMT')]:
+        Q(rng.choice(['/c/file.bin', '/c/dir/', '/c/page', '/c/missing.bin']), H0 + [(n, v)], 'model-only')
+    return t, P
+
+def multibyte_values(rng, thorough=False):
+    """[(target suffix, headers)]: long values made of two-, three- and four-byte characters in two alignments each (for every byte offset a
+    shortening may cut at, one of the two has a character straddling it), in every place a log line or a handler may copy from: the query,
+    the fragment, the headers a log prints"""
+    out = []
+    chars = ['я', 'é', '日', '€', '\U0001F600']
+    for ch in (chars if thorough else [chars[rng.below(2)], chars[2 + rng.below(2)], chars[4]]):
+        for shift in ('', 'a'):
+            for n in ([60, 130, 300, 1100] if thorough else [rng.choice([60, 130]), rng.choice([300, 1100])]):
+                v = shift + ch * (n // len(ch.encode()))
+                out.append(('?q=' + v, []))
+                out.append(('#' + v, []))
+                carriers = ['Referer', 'User-Agent', 'Cookie', 'X-Forwarded-For', 'Origin', 'Accept-Language', 'Host', 'From', 'X-Request-Id', 'Accept']
+                for name in (carriers if thorough else [rng.choice(carriers[:3]), rng.choice(carriers[3:])]):
+                    out.append(('', [('Host', 'localhost'), (name, ('http://h/' if name in ('Referer', 'Origin') else '') + v)] if name != 'Host' else [('Host', v)]))
+    return out
+
+def alloc_sizes(thorough=False):
+    """[(request buffer size, file size)]: the file is as long as the request buffer, one byte shorter / longer, twice as long"""
+    out = []
+    for a in ([64, 100, 128, 1024, 4096, 8192, 10000] if thorough else [64, 128, 1024, 4096]):
+        for s in [a - 1, a, a + 1, 2 * a, 2 * a + 1]: out.append((a, s))
+    return out
+
+def split_answers(raw):
+    """the answers on a connection, one after the other: [(head bytes, body bytes)] read by Content-Length; interim (1xx) answers are
+    skipped.  What follows an answer and does not begin like another answer stays in the body of that answer (one answer, too long)."""
+    import re
+    out = []
+    rest = raw
+    while rest:
+        k = rest.find(b'\r\n\r\n')
+        if k < 0 or not rest.startswith(b'HTTP/'):
+            if out: out[-1] = (out[-1][0], out[-1][1] + rest)
+            else: out.append((rest, b''))
+            break
+        head, after = rest[:k + 4], rest[k + 4:]
+        m = re.match(rb'HTTP/1\.[01] 1\d\d ', head)
+        if m:
+            rest = after; continue
+        cl = re.search(rb'(?i)\r\ncontent-length: *(\d+) *\r\n', head)
+        if cl is None:
+            out.append((head, after)); break
+        n = int(cl.group(1))
+        if len(after) > n and after[n:n + 5] == b'HTTP/':
+            out.append((head, after[:n])); rest = after[n:]
+        else:
+            out.append((head, after)); break
+    return out
